@@ -14,6 +14,13 @@ time through $VERIF_C08_HASHBITS) -> gensquashfs on generated file sets (gzip/xz
 -b 4K..64K, -j 1/4, sort-file flags) -> every file read back with vlib.sqfsimg and with
 rdsquashfs -> compared with the inputs; true duplicates must still share block start and fragment
 reference.
+
+Image-data leg (coq/ImgData, image_file_contents_roundtrip): gensquashfs images of generated file sets are read
+with the EXTRACTED reader specification of the theorem (read_super / read_frags / read_image_tree /
+image_read_file; system codecs through imgdata_stubs.c) and every file must come back byte-exact; for sets of
+incompressible blocks the extracted glue (pack with a never-shrinking compressor and the same weak xxh32 ->
+file_lkind / frag_table_of / data_of) must PREDICT every inode's blocks_start, size words and fragment
+reference, the fragment table and the bytes of the data area exactly.
 """
 import collections
 import hashlib
@@ -450,6 +457,223 @@ def spec_summary(spec):
 
 
 # --------------------------------------------------------------------------------------------
+# image-data leg: the extracted reader specification / glue of coq/ImgData on real images
+# --------------------------------------------------------------------------------------------
+
+STACK = ["sh", "-c", 'ulimit -s unlimited 2>/dev/null || ulimit -s 4000000 2>/dev/null; exec "$0" "$@"']
+NOX = 0xFFFFFFFF
+
+
+def imgdata_driver():
+    args = dict(stubs_c=os.path.join(HERE, "imgdata_stubs.c"), cclibs=["-lz", "-llzma", "-llz4", "-lzstd"])
+    try:
+        return core.build_model_driver("C08img", "ExtractC08Img.v", os.path.join(HERE, "imgdata_driver.ml"), **args)
+    except RuntimeError as e:
+        if "inconsistent assumptions" not in str(e) and "Cannot find" not in str(e):
+            raise
+    with core.Lock("coq"):
+        core.coq_make(["ImgData/GlueModel.vo", "C08/DedupTheorems.vo"])
+    return core.build_model_driver("C08img", "ExtractC08Img.v", os.path.join(HERE, "imgdata_driver.ml"), **args)
+
+
+def gen_imgdata_set(setseed, exact):
+    """exact: every block / tail is random or all zero (no compressor shrinks it), so that the model predicts the layout"""
+    rnd = random.Random(setseed)
+    bs = rnd.choice([4096, 4096, 4096, 8192, 16384])
+    comp = rnd.choice(COMPRESSORS)
+    k = rnd.choice([2, 2, 4, 8, 32])
+    jobs = rnd.choice([1, 4])
+    pool = []
+    for _ in range(rnd.randint(3, 6)):
+        t = rnd.random()
+        if t < 0.7 or (exact and t < 0.85):
+            pool.append(rnd.randbytes(bs))
+        elif t < 0.85:
+            pool.append(bytes([rnd.randint(1, 255)]) * bs if rnd.random() < 0.5
+                        else rnd.randbytes(bs // 2) + bytes([rnd.randint(1, 9)]) * (bs - bs // 2))
+        else:
+            pool.append(bytes(bs))
+    tsizes = [rnd.randint(1, bs - 1), rnd.randint(1, 200), rnd.randint(1, 16)]
+    tails = []
+    for _ in range(rnd.randint(3, 6)):
+        n = rnd.choice(tsizes)
+        t = rnd.random()
+        if t < 0.75 or (exact and t < 0.9):
+            tails.append(rnd.randbytes(n))
+        elif t < 0.9:
+            tails.append(bytes([rnd.randint(1, 255)]) * n)
+        else:
+            tails.append(bytes(n))
+    files = []
+    for i in range(rnd.randint(4, 12)):
+        if files and rnd.random() < 0.25:
+            files.append(rnd.choice(files))
+            continue
+        d = b"".join(rnd.choice(pool) for _ in range(rnd.choice([0, 0, 1, 1, 2, 3])))
+        if rnd.random() < 0.75:
+            d += rnd.choice(tails)
+        files.append(d)
+    return dict(setseed=setseed, exact=exact, bs=bs, comp=comp, k=k, jobs=jobs, files=files,
+                notail=rnd.random() < 0.15)
+
+
+def parse_imgdata(lines):
+    """lines of one R / P answer -> dict(super, frags, nodes{name: (start,size,sparse,fi,fo,words,md5)}, data, err)"""
+    out = dict(super=None, frags=None, nodes={}, data=None, err=None)
+    for l in lines:
+        t = l.split(" ")
+        if t[0] == "S":
+            out["super"] = None if t[1] == "NONE" else [int(x) for x in t[1:]]
+        elif t[0] == "F":
+            out["frags"] = None if t[1] == "NOREAD" else ([] if t[1] == "-" else [tuple(int(x) for x in e.split(":")) for e in t[1].split(",")])
+        elif t[0] == "N":
+            words = [] if t[7] == "-" else [int(x) for x in t[7].split(".")]
+            out["nodes"][bytes.fromhex(t[1]).decode()] = (int(t[2]), int(t[3]), t[4], int(t[5]), int(t[6]), words,
+                                                           t[8] if len(t) > 8 else None)
+        elif t[0] == "D":
+            out["data"] = (int(t[1]), t[2])
+        elif t[0] in ("T", "ERR", "PARSE"):
+            out["err"] = l
+    return out
+
+
+def run_imgdata_set(info, drv, spec, workdir):
+    """Returns (violations=[(sig, what, no_input)], stats Counter)."""
+    st = collections.Counter()
+    d = tempfile.mkdtemp(dir=workdir)
+    try:
+        src = os.path.join(d, "in")
+        os.mkdir(src)
+        names = []
+        for i, data in enumerate(spec["files"]):
+            names.append("f%03d" % i)
+            with open(os.path.join(src, names[-1]), "wb") as fh:
+                fh.write(data)
+        img = os.path.join(d, "img.sqfs")
+        cmd = [info["tools"]["gensquashfs"], "-q", "-f", "-D", src, "-c", spec["comp"], "-b", str(spec["bs"]),
+               "-j", str(spec["jobs"])] + (["-T"] if spec["notail"] else []) + [img]
+        env = dict(os.environ, VERIF_C08_HASHBITS=str(spec["k"]), **ASAN_ENV)
+        tag = "%s:b%d:j%d:k%d%s" % (spec["comp"], spec["bs"], spec["jobs"], spec["k"], ":T" if spec["notail"] else "")
+        try:
+            r = subprocess.run(cmd, stdout=subprocess.PIPE, stderr=subprocess.PIPE, env=env, timeout=TOOL_TIMEOUT)
+        except subprocess.TimeoutExpired:
+            return [("tool-pack-timeout", "gensquashfs hangs (%s)" % tag, False)], st
+        if r.returncode != 0:
+            return [("tool-pack-failed", "gensquashfs fails on a valid file set (%s): %s"
+                     % (tag, r.stderr.decode("utf-8", "replace")[-400:]), False)], st
+        raw = open(img, "rb").read()
+        flags = int.from_bytes(raw[24:26], "little")
+        data_start = 96
+        if flags & 0x0400:                                  # SQFS_FLAG_COMPRESSOR_OPTIONS: one metadata block behind the super block
+            data_start = 98 + (int.from_bytes(raw[96:98], "little") & 0x7FFF)
+        inode_start = int.from_bytes(raw[64:72], "little")
+        text = "R %s\n" % img
+        if spec["exact"]:
+            text += "P %d %d %d %d %d %s\n" % (spec["bs"], spec["k"], data_start, len(names), 1 if spec["notail"] else 0, src)
+        try:
+            pr = subprocess.run(STACK + [drv], input=text.encode(), stdout=subprocess.PIPE, stderr=subprocess.PIPE, timeout=120)
+        except subprocess.TimeoutExpired:
+            return [("imgdata-driver", "extracted reader specification does not answer within 120 s (%s)" % tag, True)], st
+        lines = pr.stdout.decode("latin-1").split("\n")
+        ends = [i for i, l in enumerate(lines) if l == "END"]
+        if pr.returncode != 0 or len(ends) < (2 if spec["exact"] else 1):
+            return [("imgdata-driver", "extracted reader specification died rc=%d (%s): %s"
+                     % (pr.returncode, tag, pr.stderr.decode("latin-1")[-300:]), True)], st
+        real = parse_imgdata(lines[:ends[0]])
+        viol = []
+        st["sets"] += 1
+        # (a) the reader specification of image_file_contents_roundtrip returns the input bytes
+        bad = []
+        if real["super"] is None or real["frags"] is None or real["err"]:
+            bad.append(("*", "super block / fragment table / tree not readable: %s" % (real["err"] or "S/F")))
+        else:
+            if real["super"][0] != spec["bs"]:
+                bad.append(("*", "block size in the super block is %d" % real["super"][0]))
+            for i, nm in enumerate(names):
+                n = real["nodes"].get(nm)
+                if n is None:
+                    bad.append((nm, "no file inode under this name"))
+                elif n[6] != hashlib.md5(spec["files"][i]).hexdigest():
+                    bad.append((nm, "reader specification returns %s" % ("nothing" if n[6] == "ERR" else "other bytes")))
+                st["files_read_from_image"] += 1
+        if bad:
+            viol.append(("imgdata-readback", "files read from the gensquashfs image by the reader specification of "
+                         "image_file_contents_roundtrip (extracted; %s) differ from the inputs: %s" % (tag, bad[:4]), False))
+        # (b) the glue predicts the layout exactly
+        if spec["exact"] and not real["err"] and real["super"] is not None:
+            pred = parse_imgdata(lines[ends[0] + 1:ends[1]])
+            diff = []
+            if pred["err"]:
+                diff.append("model: %s" % pred["err"])
+            else:
+                for nm in names:
+                    a, b = real["nodes"].get(nm), pred["nodes"].get(nm)
+                    if a is None or b is None or (a[0], a[1], a[3], a[4], a[5]) != (b[0], b[1], b[3], b[4], b[5]):
+                        diff.append("%s: image (start,size,frag_idx,frag_off,words)=%s model %s"
+                                    % (nm, a and (a[0], a[1], a[3], a[4], a[5][:6]), b and (b[0], b[1], b[3], b[4], b[5][:6])))
+                if real["frags"] != pred["frags"]:
+                    diff.append("fragment table: image %s model %s" % (real["frags"][:4], pred["frags"][:4]))
+                area = raw[data_start:inode_start]
+                if pred["data"] != (len(area), hashlib.md5(area).hexdigest()):
+                    diff.append("data area [%d, %d): image %d bytes, model %d bytes%s"
+                                % (data_start, inode_start, len(area), pred["data"][0],
+                                   "" if len(area) != pred["data"][0] else " with other content"))
+                st["layouts_predicted"] += 1
+                st["inodes_predicted"] += len(names)
+                st["with_dup_or_collision"] += len(set(spec["files"])) != len(spec["files"])
+            if diff:
+                viol.append(("tie-imgdata-layout", "the glue of coq/ImgData (pack -> data_of / frag_table_of / file_lkind, data "
+                             "area at %d) no longer predicts what gensquashfs writes (%s): %s" % (data_start, tag, diff[:3]),
+                             not bad))
+        return viol, st
+    finally:
+        shutil.rmtree(d, ignore_errors=True)
+
+
+def imgdata_leg(ctx, info, setspecs):
+    try:
+        drv = imgdata_driver()
+    except RuntimeError as e:
+        if not ctx.proof_broken:
+            raise
+        ctx.notes.append("image-data driver not built (proofs broken): leg skipped: %s" % str(e)[-300:])
+        return [], collections.Counter()
+    work = tempfile.mkdtemp(dir=ctx.scratch)
+    stats = collections.Counter()
+    found = []
+
+    def one(sp):
+        spec = gen_imgdata_set(*sp)
+        try:
+            v, s = run_imgdata_set(info, drv, spec, work)
+        except Exception as e:  # noqa: BLE001
+            v, s = [("imgdata-oracle-error", "image-data leg failed: %r" % (e,), True)], collections.Counter()
+        return spec, v, s
+
+    with ThreadPoolExecutor(max_workers=8) as ex:
+        for spec, v, s in ex.map(one, setspecs):
+            stats.update(s)
+            for sig, what, no_input in v:
+                found.append((sig, what, no_input, spec))
+    return found, stats
+
+
+def report_imgdata(ctx, found):
+    seen = set()
+    for sig, what, no_input, spec in found:
+        if sig in seen:
+            continue
+        seen.add(sig)
+        if sig.startswith("tie-"):
+            ctx.tie_broken.append("C08 image-data glue")
+        ctx.violation(sig, what, dict(kind="imgdata", setseed=spec["setseed"], exact=spec["exact"],
+                                      spec=dict(spec_summary(dict(spec, backlog=None, sort=None)), exact=spec["exact"]),
+                                      correspondence="props/C08 image-data leg: extracted coq/ImgData glue + reader "
+                                                     "specification vs gensquashfs image"),
+                      no_input=no_input)
+
+
+# --------------------------------------------------------------------------------------------
 # init.c: the tools enable the byte comparison
 # --------------------------------------------------------------------------------------------
 
@@ -500,6 +724,8 @@ def run(ctx):
         "vlib/sqfsimg.py as independent reader of the tool-level oracle; rdsquashfs of the working tree as second reader",
         "props/C08/gen_c08_constants.c -> coq/C08/GenC08.v (SCRATCH_SIZE, size-word masks, MK_BLK_HASH packing)",
         "ASan/UBSan verdict on harness and tool runs",
+        "props/C08/imgdata_driver.ml (xxHash32 re-implemented in OCaml, parsing/printing), props/C08/imgdata_stubs.c (system "
+        "zlib/liblzma/liblz4/libzstd as decompressor oracle of the extracted reader specification)",
     ]
     ctx.assumptions += [
         "compressor contract (include/sqfs/compressor.h): compress b = Some c -> |c| < |b| and uncompress c n = Some b for every "
@@ -512,6 +738,11 @@ def run(ctx):
     # ---------------- replay ----------------
     if ctx.replay:
         r = json.load(open(ctx.replay))
+        if r.get("kind") == "imgdata":
+            found, stats = imgdata_leg(ctx, info, [(r["setseed"], bool(r.get("exact")))])
+            ctx.coverage["evaluations"] = 1
+            report_imgdata(ctx, found)
+            return
         if r.get("kind") == "tool" or "setseed" in r:
             found, stats = tool_search(ctx, info, [r["setseed"]], big=bool(r.get("big")))
             ctx.coverage["evaluations"] = 1
@@ -559,6 +790,27 @@ def run(ctx):
         ctx.violation("init-c:" + re.sub(r"[^a-z]+", "-", p.lower())[:40],
                       "lib/common/src/writer/init.c: " + p, dict(kind="source check", file="lib/common/src/writer/init.c"),
                       no_input=True)
+        tie_or_proof_broken = True
+
+    # ---------------- image-data leg ----------------
+    t1 = time.time()
+    n_exact, n_any = (20, 14) if ctx.tier == "quick" else (300, 200)
+    rnd_i = random.Random(ctx.seed * 104729 + 11)
+    found_i, stats_i = imgdata_leg(ctx, info, [(rnd_i.randrange(1 << 40), True) for _ in range(n_exact)] +
+                                   [(rnd_i.randrange(1 << 40), False) for _ in range(n_any)])
+    ctx.log("image-data leg: %d images, %d files read through the extracted reader specification, %d layouts predicted, "
+            "%d violations %.1fs" % (stats_i["sets"], stats_i["files_read_from_image"], stats_i["layouts_predicted"],
+                                     len(found_i), time.time() - t1))
+    ctx.coverage["image_data"] = dict(stats_i, sets_requested=n_exact + n_any,
+                                      rule="gensquashfs (weak-hash build, k in {2,4,8,32}) x {gzip,xz,lz4,zstd} x -b 4K/8K/16K x "
+                                           "-j {1,4} x -T: every file read from the image with the extracted image_read_file "
+                                           "(inode view from the extracted read_image_tree, fragment table from read_frags) = "
+                                           "input; on sets of incompressible / zero blocks the extracted pack + glue predicts "
+                                           "blocks_start, size words, fragment references, fragment table and data area exactly")
+    ctx.coverage["evaluations"] += stats_i["sets"]
+    ctx.coverage["traces_validated_against_impl"] += stats_i["layouts_predicted"]
+    report_imgdata(ctx, found_i)
+    if any(f[0].startswith("tie-") for f in found_i):
         tie_or_proof_broken = True
 
     # ---------------- tool-level search ----------------
@@ -609,3 +861,4 @@ def report_component(ctx, info, res, allow_search):
 
 def setup():
     model_driver()
+    imgdata_driver()
